@@ -5,6 +5,7 @@ import (
 	"fmt"
 	"math"
 	"math/big"
+	"strings"
 	"testing"
 
 	geom "github.com/twpayne/go-geom"
@@ -181,6 +182,9 @@ func genCase(t *rapid.T) Case {
 		c.Extra = rapid.SampledFrom([]int{0, 0, 1, 2}).Draw(t, "extra")
 		lim = 480
 	}
+	if c.Class == "wide-whole-numbers" {
+		lim -= 52
+	}
 	if c.Class == "hair-segment-far-point" {
 		lim -= 62 // ordinates of up to 62 bits: their squares (fourth powers) must stay finite
 	}
@@ -253,6 +257,41 @@ func genCase0(t *rapid.T) Case {
 		cl, p := genSegSeg(t, true)
 		return Case{Fn: fn, Class: cl, P: p}
 	case "seg-seg2":
+		// whole numbers at the widths of machine integers, at an extreme of the range a
+		// third of the time: differences need one more bit than the type, their products
+		// twice as many
+		if rapid.IntRange(0, 7).Draw(t, "wideint") == 3 {
+			lim := int64(1) << uint(rapid.SampledFrom([]int{26, 27, 30, 31, 31, 32, 40, 50}).Draw(t, "widek"))
+			wp := func(l string) [3]int64 {
+				var q [3]int64
+				for i := 0; i < 2; i++ {
+					switch rapid.IntRange(0, 5).Draw(t, l+"ext") {
+					case 0:
+						q[i] = lim - 1
+					case 1:
+						q[i] = -lim
+					default:
+						q[i] = rapid.Int64Range(-lim, lim-1).Draw(t, l+"v")
+					}
+				}
+				return q
+			}
+			p := [][3]int64{wp("wa"), wp("wb"), wp("wc"), wp("wd")}
+			if rapid.Bool().Draw(t, "diagonals") {
+				// the two diagonals of (nearly) the whole square: long, and crossing
+				// (of a rectangle of drawn half-sides between a quarter of the range and all of it)
+				j := func(l string) int64 { return rapid.Int64Range(0, lim/1024).Draw(t, l) }
+				hx, hy := rapid.Int64Range(lim/4, lim-1).Draw(t, "hx"), rapid.Int64Range(lim/4, lim-1).Draw(t, "hy")
+				p = [][3]int64{{-hx + j("j1"), -hy + j("j2")}, {hx - j("j3"), hy - j("j4")}, {-hx + j("j5"), hy - j("j6")}, {hx - j("j7"), -hy + j("j8")}}
+			}
+			if p[0] == p[1] {
+				p[1][0]--
+			}
+			if p[2] == p[3] {
+				p[3][1]--
+			}
+			return Case{Fn: fn, Class: "wide-whole-numbers", P: p}
+		}
 		cl, p := genSegSeg(t, false)
 		return Case{Fn: fn, Class: cl, P: p}
 	case "pt-seg3", "pt-seg2", "perp2":
@@ -621,6 +660,9 @@ func region(v *big.Rat) string {
 
 func classify(c Case) ([]string, bool) {
 	cl := []string{"fn:" + c.Fn}
+	if strings.Contains(c.Class, "wide-whole") || strings.Contains(c.Class, "hair-segment") || strings.Contains(c.Class, "+div") || strings.Contains(c.Class, "+negzero") {
+		cl = append(cl, "class:"+c.Class)
+	}
 	nt := true
 	switch c.Fn {
 	case "seg-seg3", "seg-seg2":
